@@ -2610,3 +2610,109 @@ func r5C16(c *Ctx) {
 		c.Unresolved("R16.11", "calls of script-running LState methods")
 	}
 }
+
+// ================================================================ round 5, fifth batch
+
+func init() {
+	extend := func(id string, expl string, extra func(c *Ctx)) {
+		pr := Registry[id]
+		old := pr.Run
+		pr.Run = func(c *Ctx) { old(c); extra(c) }
+		pr.Explanation += " " + expl
+	}
+	imp := func(id, from string, mapping map[string]string, expl string) {
+		extend(id, expl, func(c *Ctx) { importFrom(c, from, mapping) })
+	}
+	extend("C09", "(R9.2e) the two update validators freeze workloadRef / trafficRoutings in the same phases, and these include Progressing and Terminating (sibling agreement on the phase constants the immutability branch is entered for).", r5C09b)
+	imp("C18", "C09", map[string]string{"R9.2e": "R18.10"}, "(R18.10 = C09 R9.2e) while a Rollout is Terminating its routing references cannot be edited through either API version, so the teardown restores what the release wrote before the finalizer goes.")
+}
+
+func r5C09b(c *Ctx) {
+	p := c.Prog
+	c.Rule("R9.2e", "both update validators apply the immutability checks in the same phases, Progressing and Terminating included", 2)
+	vp := "pkg/webhook/rollout/validating."
+	phasesOf := func(fn *ssa.Function) (map[string]bool, bool) {
+		// phase constants compared (==) on the way to an 'immutable' rejection
+		out := map[string]bool{}
+		found := false
+		for _, b := range fn.Blocks {
+			for _, in := range b.Instrs {
+				isMsg := false
+				for _, op := range in.Operands(nil) {
+					if k, ok := (*op).(*ssa.Const); ok && k.Value != nil && k.Value.Kind() == constant.String && strings.Contains(constant.StringVal(k.Value), "is immutable") {
+						isMsg = true
+					}
+				}
+				if !isMsg {
+					continue
+				}
+				found = true
+				// walk back: every block from which this instruction is reachable contributes the phase
+				// comparisons whose true-edge leads here
+				for _, pb := range fn.Blocks {
+					if len(pb.Instrs) == 0 {
+						continue
+					}
+					iff, ok := pb.Instrs[len(pb.Instrs)-1].(*ssa.If)
+					if !ok {
+						continue
+					}
+					bo, ok := iff.Cond.(*ssa.BinOp)
+					if !ok || bo.Op != token.EQL {
+						continue
+					}
+					var k *ssa.Const
+					var other ssa.Value
+					if kc, ok := bo.Y.(*ssa.Const); ok {
+						k, other = kc, bo.X
+					} else if kc, ok := bo.X.(*ssa.Const); ok {
+						k, other = kc, bo.Y
+					}
+					if k == nil || k.Value == nil || k.Value.Kind() != constant.String {
+						continue
+					}
+					if t := TermOf(other); !(MField("Phase")(t) || t.Any(MField("Phase"))) {
+						continue
+					}
+					if r, _ := CanReach(Point{Block: pb.Succs[0]}, func(x ssa.Instruction) bool { return x == in }, ReachOpts{}); r {
+						out[constant.StringVal(k.Value)] = true
+					}
+				}
+			}
+		}
+		return out, found
+	}
+	a := p.Func(vp + "RolloutCreateUpdateHandler.validateRolloutUpdate")
+	b := p.Func(vp + "RolloutCreateUpdateHandler.validateV1alpha1RolloutUpdate")
+	if a == nil || b == nil {
+		c.Unresolved("R9.2e", "validateRolloutUpdate / validateV1alpha1RolloutUpdate")
+		return
+	}
+	pa, fa := phasesOf(a)
+	pb, fb := phasesOf(b)
+	if !fa || !fb {
+		c.Ob("R9.2e", "update-validators#immutable-branch", a.Pos(), false, "'is immutable' rejections", "anchor not found in one of the validators")
+		return
+	}
+	for _, v := range []struct {
+		label  string
+		fn     *ssa.Function
+		phases map[string]bool
+		other  map[string]bool
+	}{{"v1beta1", a, pa, pb}, {"v1alpha1", b, pb, pa}} {
+		var miss []string
+		for _, need := range []string{"Progressing", "Terminating"} {
+			if !v.phases[need] {
+				miss = append(miss, need)
+			}
+		}
+		for ph := range v.other {
+			if !v.phases[ph] && ph != "Progressing" && ph != "Terminating" {
+				miss = append(miss, ph+" (frozen by the other validator)")
+			}
+		}
+		sort.Strings(miss)
+		c.Ob("R9.2e", v.label+"#immutable-phases", v.fn.Pos(), len(miss) == 0, "immutability is enforced in "+strings.Join(keysOf(v.phases), ", "),
+			ifs(len(miss) > 0, "not enforced in phase "+strings.Join(miss, ", ")+": through this API version the routing references of a Rollout in that phase can be replaced; the teardown then restores the newly named objects (nothing to do), drops the finalizer, and the objects the release really modified keep routing to a deleted canary Service"))
+	}
+}
